@@ -38,15 +38,43 @@ SEEDS = {
             "number of active threads: the last size % threads outputs are "
             "never written"),
 }
+SEEDS_B = {
+    "C09": ("C09-bumpwithmalloc-fallback-ignores-header",
+            "BumpWithMallocHeap::allocate decides on the malloc fallback "
+            "without counting the block header",
+            "a request whose 8-aligned size lies in (AllocSize - sizeof(Block), "
+            "AllocSize]: the block overruns its chunk by up to 8 bytes and the "
+            "next refill's chunk header lands inside the live block"),
+    "C11": ("C11-csr-transpose-edgedata-slot",
+            "LC_CSR_Graph::transpose copies edge data from slot e_new instead "
+            "of e",
+            "transpose() on a graph with non-void, non-uniform edge data whose "
+            "slots move; topology stays right; no unit test calls transpose()"),
+    "C15": ("C15-reduce-merges-active-threads-only",
+            "Reducible::reduce merges only min(getActiveThreads(), size) "
+            "per-thread slots",
+            "setActiveThreads() lowered between the parallel region and "
+            "reduce(): partial values of the higher threads are dropped and "
+            "leak into a later reduce()"),
+    "C17": ("C17-linearseq-unaligned-double-advance",
+            "gDeserializeLinearSeq advances the read cursor a second time on "
+            "the unaligned (extract) path",
+            "a non-empty POD vector read at a misaligned cursor and followed "
+            "by more data in the same buffer"),
+}
 
 
 def main():
-    confirm = os.path.join(HERE, "build/tmp/confirm_combined.log")
+    global SEEDS
+    if len(sys.argv) > 1 and sys.argv[1] == "b":
+        SEEDS = SEEDS_B
+    which = "C09+C11+C15+C17" if SEEDS is SEEDS_B else "C12+C13+C14+C16"
+    confirm = os.path.join(HERE, "build/tmp/confirm_combined2.log" if SEEDS is SEEDS_B else "build/tmp/confirm_combined.log")
     ctext = open(confirm).read() if os.path.exists(confirm) else ""
     m = re.search(r"(\d+)% tests passed, (\d+) tests failed out of (\d+)", ctext)
     baseline = ("%s of %s stable tests failed (the four second-round patches "
-                "C12+C13+C14+C16 applied TOGETHER to /repo, incremental build "
-                "of /repo/_build, tools/confirm_in_repo.sh)" % (m.group(2), m.group(3))
+                "%s applied TOGETHER to /repo, incremental build "
+                "of /repo/_build, tools/confirm_in_repo.sh)" % (m.group(2), m.group(3), which)
                 if m else "NOT RUN to completion: " + ctext[-300:])
     demo = json.load(open(os.path.join(HERE, "build/tmp/demo_exits.json")))
     for pid, (d, change, needs) in SEEDS.items():
@@ -76,7 +104,7 @@ def main():
             "detection": {
                 "before": "caught by the registered quick tier as it stood "
                           "(no change to the check was needed)" if keys else
-                          "see DESIGN.md 11.4",
+                          "MISSED by the registered quick tier (see DESIGN.md 11.4)",
                 "quick_tier_run": {
                     "command": "tools/try_seed.sh seeded/%s/patch.diff %s quick" % (d, pid),
                     "violation_lines": len(re.findall(r"^VIOLATION", dtext, re.M)),
